@@ -82,9 +82,71 @@ pub fn in_shuttle<R: Send + 'static>(f: impl FnOnce() -> R + Send + 'static) -> 
 
 pub const TEMPLATE_HASH_SEED: u64 = 0x00C0_FFEE_0000_0001;
 
+/// A converter that is neither the bundled nor the empty one: the bundled units plus a layer with
+/// German aliases and other fractions settings, built through `ConverterBuilder`.
+const CUSTOM_DE_LAYER: &str = r#"
+default_system: metric
+fractions:
+  metric: true
+  unit:
+    tsp: { max_whole: 3, max_denominator: 4 }
+extend:
+  units:
+    gram: { aliases: [Gramm, gr] }
+    tbsp: { aliases: [EL, Esslöffel] }
+    tsp: { aliases: [TL, Teelöffel] }
+    l: { aliases: [Liter] }
+    min: { aliases: [Minuten, Min] }
+    h: { aliases: [Stunde, Stunden] }
+    cup: { aliases: [Tasse, Tassen] }
+"#;
+
+/// Another one: the bundled units with different SI prefix tables (`K` for kilo, `deka` for deca)
+const CUSTOM_SI_LAYER: &str = r#"
+si:
+  precedence: after
+  symbol_prefixes:
+    kilo: [K]
+    hecto: []
+    deca: []
+    deci: []
+    centi: []
+    milli: []
+  prefixes:
+    kilo: []
+    hecto: []
+    deca: [deka]
+    deci: []
+    centi: []
+    milli: []
+"#;
+
+fn custom_converter(layer: &str) -> Converter {
+    let build = || -> Result<Converter, String> {
+        let layer: cooklang::convert::units_file::UnitsFile = serde_yaml::from_str(layer).map_err(|e| e.to_string())?;
+        cooklang::convert::ConverterBuilder::new()
+            .with_bundled_units()
+            .map_err(|e| e.to_string())?
+            .with_units_file(layer)
+            .map_err(|e| e.to_string())?
+            .finish()
+            .map_err(|e| e.to_string())
+    };
+    // if the library rejects the layer (a change of the units-file format), fall back to bundled:
+    // the configuration is then simply one more bundled parser
+    build().unwrap_or_else(|e| {
+        if std::env::var("COOKSIM_DEBUG").is_ok() {
+            eprintln!("custom converter layer rejected: {e}");
+        }
+        Converter::bundled()
+    })
+}
+
 pub fn build_parser(cfg: &ParserCfg) -> CooklangParser {
     let conv = match cfg.converter.as_str() {
         "bundled" => Converter::bundled(),
+        "custom-de" => custom_converter(CUSTOM_DE_LAYER),
+        "custom-si" => custom_converter(CUSTOM_SI_LAYER),
         _ => Converter::empty(),
     };
     CooklangParser::new(Extensions::from_bits_truncate(cfg.ext_bits), conv)
@@ -511,6 +573,28 @@ pub fn perform(parser: &CooklangParser, input: &str, op: &Op, faults: bool, dept
                     let ok = q.try_fraction(parser.converter());
                     s.push_str(&format!("\nFRAC {ok} {q:?}"));
                 }
+                // derived views of the scaled recipe (grouped quantities as a sorted multiset: the
+                // order of quantities with unknown units is a hash order the library does not promise)
+                for g in scaled.group_ingredients(parser.converter()) {
+                    let mut qs: Vec<String> = g.quantity.iter().map(|q| format!("{q:?}")).collect();
+                    qs.sort();
+                    s.push_str(&format!("\nGROUP {} {:?} {qs:?}", g.index, g.outcome));
+                }
+                for g in scaled.group_cookware() {
+                    let mut qs: Vec<String> = g.amount.iter().map(|q| format!("{q:?}")).collect();
+                    qs.sort();
+                    s.push_str(&format!("\nCOOKWARE {} {qs:?}", g.index));
+                }
+                s.push_str(&format!("\nSCALED-DATA {:?} default={}", scaled.scaled_data().map(|d| d.target.factor()), scaled.is_default_scaled()));
+            }
+            // the other two scaling entry points
+            if let Some(recipe) = parser.parse(input).into_output() {
+                let d = recipe.default_scale();
+                s.push_str(&format!("\nDEFAULT-SCALE {:?}", d.ingredients));
+            }
+            if let Some(recipe) = parser.parse(input).into_output() {
+                let t = recipe.scale_to_servings(4, parser.converter());
+                s.push_str(&format!("\nTO-SERVINGS {:?} {:?}", t.ingredients, t.scaled_data().map(|d| d.target.factor())));
             }
             s
         }),
